@@ -30,9 +30,11 @@ aws_log_call(int kind, const uint8_t * K, size_t Klen, const uint8_t * in, size_
 	AWS_BOUND(len <= AWS_MMAX, "message longer than AWS_MMAX");
 	e = &g_aws_log[g_aws_n];
 	e->kind = kind;
+	e->kptr = K;
 	e->klen = Klen;
 	for (i = 0; i < AWS_KMAX; i++)
 		e->key[i] = (i < Klen) ? K[i] : 0;
+	e->mptr = in;
 	e->mlen = len;
 	for (i = 0; i < AWS_MMAX; i++)
 		e->msg[i] = (i < len) ? in[i] : 0;
